@@ -141,6 +141,17 @@ func (x *c12Ctx) newScale(s uint64) rlwe.Scale {
 	return rlwe.NewScale(s)
 }
 
+// ltScale: the Scale field of the transformation's Parameters, built the way lt.skind says
+func (x *c12Ctx) ltScale(lt *c12LT) rlwe.Scale {
+	switch lt.skind {
+	case 1:
+		return x.rp.DefaultScale()
+	case 2:
+		return rlwe.NewScale(lt.scale)
+	}
+	return x.newScale(lt.scale)
+}
+
 func (x *c12Ctx) schemeEval(evk rlwe.EvaluationKeySet) schemes.Evaluator {
 	if x.scheme == "bgv" {
 		return bgv.NewEvaluator(x.bp, evk)
@@ -234,7 +245,11 @@ func (x *c12Ctx) decrypt(ct *rlwe.Ciphertext, n int) []int64 {
 
 func (x *c12Ctx) scaleStr(s rlwe.Scale) string {
 	if x.scheme == "bgv" {
-		return U(s.Uint64())
+		// value AND modulus: the modulus rides on the scale and every later modular scale operation reads it
+		if s.Mod == nil {
+			return s.Value.Text('f', 0) + "%nil"
+		}
+		return s.Value.Text('f', 0) + "%" + s.Mod.String()
 	}
 	f := new(big.Float).Copy(&s.Value)
 	if f.IsInt() {
@@ -250,6 +265,8 @@ type c12LT struct {
 	ratio   int
 	level   int
 	scale   uint64
+	skind   int // how Parameters.Scale is built: 0 params.NewScale(scale) (bgv: modulus t attached; ckks: rlwe.NewScale),
+	// 1 params.DefaultScale() (scale = its value), 2 rlwe.NewScale(scale) WITHOUT modulus (bgv: scale may be >= t)
 	logCols int
 	idx     []int     // diagonal indices as given by the user (may be negative)
 	diag    [][]int64 // diag[k] = rows*cols values of diagonal idx[k]
@@ -303,7 +320,7 @@ func (x *c12Ctx) build(lt *c12LT) (b c12Built) {
 			dg[d] = lt.diag[k]
 		}
 		p := bgvlt.Parameters{DiagonalsIndexList: dg.DiagonalsIndexList(), LevelQ: lt.level, LevelP: lt.levelP,
-			Scale: x.newScale(lt.scale), LogDimensions: x.dims(lt.logCols), LogBabyStepGiantStepRatio: lt.ratio}
+			Scale: x.ltScale(lt), LogDimensions: x.dims(lt.logCols), LogBabyStepGiantStepRatio: lt.ratio}
 		l := bgvlt.NewLinearTransformation(x.bp, p)
 		if err := bgvlt.Encode(x.becd, dg, l); err != nil {
 			b.encErr = true
@@ -322,7 +339,7 @@ func (x *c12Ctx) build(lt *c12LT) (b c12Built) {
 		dg[d] = f
 	}
 	p := ckkslt.Parameters{DiagonalsIndexList: dg.DiagonalsIndexList(), LevelQ: lt.level, LevelP: lt.levelP,
-		Scale: x.newScale(lt.scale), LogDimensions: x.dims(lt.logCols), LogBabyStepGiantStepRatio: lt.ratio}
+		Scale: x.ltScale(lt), LogDimensions: x.dims(lt.logCols), LogBabyStepGiantStepRatio: lt.ratio}
 	l := ckkslt.NewTransformation(x.cp, p)
 	if err := ckkslt.Encode(x.cecd, dg, l); err != nil {
 		b.encErr = true
@@ -386,6 +403,7 @@ type c12Case struct {
 	v       []int64
 	lts     []*c12LT
 	pkgKeys bool // the Galois keys come ONLY from the package-level GaloisElements(params, ltparams)
+	cont    bool // run the continuation probes on every output
 }
 
 func (x *c12Ctx) describe(cs *c12Case) string {
@@ -403,7 +421,7 @@ func (x *c12Ctx) describe(cs *c12Case) string {
 	}
 	fmt.Fprintf(&sb, " v=%s", c12I64(cs.v))
 	for _, lt := range cs.lts {
-		fmt.Fprintf(&sb, " LT ratio=%d lvl=%d scale=%d levelp=%d", lt.ratio, lt.level, lt.scale, lt.levelP)
+		fmt.Fprintf(&sb, " LT ratio=%d lvl=%d scale=%d levelp=%d skind=%d", lt.ratio, lt.level, lt.scale, lt.levelP, lt.skind)
 		for k, d := range lt.idx {
 			fmt.Fprintf(&sb, " D %d %s", d, c12I64(lt.diag[k]))
 		}
@@ -555,9 +573,254 @@ func (x *c12Ctx) runCase(c *Ctx, cs *c12Case) {
 				}
 				c.Probe("ckks_close_2pow-8", fmt.Sprintf("logN=%d mode=%s i=%d", x.logN, cs.mode, i), "C12-ckks-precision", d)
 			}
+			x.scaleProbe(c, cs, i, out, desc)
+			// ckks along EvaluateSequential: the scale is no longer a power of two and another operation at another
+			// scale matches scales only approximately — no exact expectation to probe
+			if cs.cont && !(x.scheme == "ckks" && cs.mode == "seq") {
+				x.continuations(c, cs, i, out, want[i], ev, desc)
+			}
 		}
 	}
 	c.Emit(desc, sb.String())
+}
+
+// scaleProbe: the recorded output scale is EXACTLY the documented ctIn.Scale * matrix.Scale — bgv: the integer
+// product reduced modulo t, carrying the modulus t (rlwe.Scale.Mod), whichever way the transformation's scale was
+// built (with or without a modulus, below or above t); along EvaluateSequential divided by the consumed q_l mod t.
+// ckks: the exact product, no modulus (not along EvaluateSequential, where Rescale divides by a prime).
+func (x *c12Ctx) scaleProbe(c *Ctx, cs *c12Case, i int, out *rlwe.Ciphertext, desc string) {
+	tag := fmt.Sprintf("%s logN=%d mode=%s i=%d skind=%d", x.scheme, x.logN, cs.mode, i, cs.lts[utilsMin(i, len(cs.lts)-1)].skind)
+	d := ""
+	if x.scheme == "bgv" {
+		t := new(big.Int).SetUint64(x.t)
+		w := new(big.Int).SetUint64(cs.ctScale)
+		mulmod := func(k uint64) { w.Mul(w, new(big.Int).SetUint64(k)); w.Mod(w, t) }
+		if cs.mode == "seq" {
+			lvl := cs.ctLevel
+			for _, lt := range cs.lts {
+				lvl = utilsMin(lvl, lt.level)
+				mulmod(lt.scale)
+				qi := new(big.Int).ModInverse(new(big.Int).SetUint64(x.rp.Q()[lvl]%x.t), t)
+				w.Mul(w, qi)
+				w.Mod(w, t)
+				lvl--
+			}
+		} else {
+			mulmod(cs.lts[i].scale)
+		}
+		got, acc := out.Scale.Value.Int(nil)
+		switch {
+		case out.Scale.Mod == nil:
+			d = "the output scale carries no modulus"
+		case out.Scale.Mod.Cmp(t) != 0:
+			d = "the output scale carries the modulus " + out.Scale.Mod.String()
+		case acc != big.Exact || got.Cmp(w) != 0:
+			d = fmt.Sprintf("output scale %s, want %s = ctIn.Scale * matrix.Scale mod t", out.Scale.Value.Text('f', 3), w.String())
+		}
+	} else if cs.mode != "seq" {
+		w := new(big.Float).SetPrec(256).SetUint64(cs.ctScale)
+		w.Mul(w, new(big.Float).SetPrec(256).SetUint64(cs.lts[i].scale))
+		if out.Scale.Mod != nil {
+			d = "the output scale carries a modulus"
+		} else if out.Scale.Value.Cmp(w) != 0 {
+			d = fmt.Sprintf("output scale %s, want %s", out.Scale.Value.Text('f', 3), w.Text('f', 0))
+		}
+	}
+	if d != "" {
+		d += " " + desc
+	}
+	c.Probe("out_scale_exact", tag, "C12-out-scale", d)
+}
+
+// continuations: the output of Evaluate/EvaluateMany/EvaluateSequential goes on through one more scale-dependent
+// operation of the scheme evaluator (on a copy) and is decoded: bgv exactly, ckks within 2^-8.
+//   cont_rescale   Rescale (divides the scale by q_level — modulo t for bgv)
+//   cont_mulpt     Mul by a plaintext encoded at another scale
+//   cont_add       Add with a fresh ciphertext at ANOTHER scale (the evaluator matches the scales)
+//   cont_lintrans  one more Evaluate (the identity transformation at another scale) followed by Rescale
+func (x *c12Ctx) continuations(c *Ctx, cs *c12Case, i int, out *rlwe.Ciphertext, want []int64, ev schemes.Evaluator, desc string) {
+	n := len(want)
+	tag := fmt.Sprintf("%s logN=%d mode=%s i=%d skind=%d", x.scheme, x.logN, cs.mode, i, cs.lts[utilsMin(i, len(cs.lts)-1)].skind)
+	check := func(name string, ct *rlwe.Ciphertext, st string, w []int64) {
+		d := ""
+		if st != "ok" {
+			d = "status=" + st + " " + desc
+		} else {
+			x.maxErr = 0
+			got := x.decrypt(ct, n)
+			if !c12Eq(got, w) || math.IsInf(x.maxErr, 1) || (x.scheme == "ckks" && !(x.maxErr < 1.0/256)) {
+				d = "wrong values after the operation " + desc
+			}
+		}
+		c.Probe(name, tag, "C12-continuation", d)
+	}
+	// ckks: only where the approximate arithmetic has room — bits more of scale fit under the modulus of the level,
+	// and a Rescale leaves a scale of at least 2^30
+	room := func(bits float64) bool {
+		if x.scheme == "bgv" {
+			return true
+		}
+		logQ := 0.0
+		for _, q := range x.rp.Q()[:out.Level()+1] {
+			logQ += math.Log2(float64(q))
+		}
+		return out.Scale.Log2()+bits+12 < logQ
+	}
+	keeps := func(bits float64) bool {
+		return x.scheme == "bgv" || out.Scale.Log2()+bits-math.Log2(float64(x.rp.Q()[out.Level()])) >= 30
+	}
+	other := x.randVec(c, cs.logCols)
+	oscale := x.ctScale(c)
+	if x.scheme == "bgv" {
+		oscale = 2 + c.rng.Below(x.t-2)
+	}
+	if out.Level() >= 1 && keeps(0) {
+		ct := out.CopyNew()
+		st := Try(func() string {
+			if err := ev.Rescale(ct, ct); err != nil {
+				return "err"
+			}
+			return "ok"
+		})
+		check("cont_rescale", ct, st, want)
+	}
+	if room(20) {
+		ct := out.CopyNew()
+		var pt *rlwe.Plaintext
+		small := make([]int64, n)
+		w := make([]int64, n)
+		for k := range small {
+			small[k] = other[k]
+			if x.scheme == "ckks" {
+				small[k] = int64(c.rng.Intn(5)) - 2
+			}
+			w[k] = x.red(x.red(want[k]) * x.red(small[k]))
+		}
+		if x.scheme == "bgv" {
+			pt = bgv.NewPlaintext(x.bp, ct.Level())
+			pt.Scale = x.bp.NewScale(oscale)
+			if err := x.becd.Encode(small, pt); err != nil {
+				panic(err)
+			}
+		} else {
+			pt = ckks.NewPlaintext(x.cp, ct.Level())
+			pt.Scale = rlwe.NewScale(uint64(1 << 20))
+			pt.LogDimensions = ring.Dimensions{Rows: 0, Cols: cs.logCols}
+			z := make([]float64, n)
+			for k := range z {
+				z[k] = float64(small[k])
+			}
+			if err := x.cecd.Encode(z, pt); err != nil {
+				panic(err)
+			}
+		}
+		st := Try(func() string {
+			if err := ev.Mul(ct, pt, ct); err != nil {
+				return "err"
+			}
+			return "ok"
+		})
+		check("cont_mulpt", ct, st, w)
+	}
+	if room(0) {
+		ct := out.CopyNew()
+		fresh := x.encrypt(other, ct.Level(), oscale, cs.logCols)
+		w := make([]int64, n)
+		for k := range w {
+			w[k] = x.red(x.red(want[k]) + x.red(other[k]))
+		}
+		st := Try(func() string {
+			if err := ev.Add(ct, fresh, ct); err != nil {
+				return "err"
+			}
+			return "ok"
+		})
+		check("cont_add", ct, st, w)
+	}
+	if out.Level() >= 1 && room(40) && keeps(40) {
+		id := &c12LT{ratio: -1, level: out.Level(), logCols: cs.logCols, levelP: cs.lts[0].levelP, idx: []int{0}, scale: oscale}
+		if x.scheme == "ckks" {
+			id.scale = 1 << 40
+		}
+		one := make([]int64, n)
+		for k := range one {
+			one[k] = 1
+		}
+		id.diag = [][]int64{one}
+		b := x.build(id)
+		ct := rlwe.NewCiphertext(x.rp, 1, out.Level())
+		st := Try(func() string {
+			var err error
+			if x.scheme == "bgv" {
+				err = bgvlt.NewEvaluator(ev).Evaluate(out.CopyNew(), bgvlt.LinearTransformation(b.common), ct)
+			} else {
+				err = ckkslt.NewEvaluator(ev).Evaluate(out.CopyNew(), ckkslt.LinearTransformation(b.common), ct)
+			}
+			if err != nil {
+				return "err"
+			}
+			if err = ev.Rescale(ct, ct); err != nil {
+				return "err"
+			}
+			return "ok"
+		})
+		check("cont_lintrans", ct, st, want)
+	}
+}
+
+// c12Scales: transformation scales built in every legal way x every size of k, every evaluation entry point,
+// naive and BSGS; every output goes through scaleProbe and the continuation probes.
+func c12Scales(c *Ctx, x *c12Ctx) {
+	L := x.maxLevel()
+	type sk struct {
+		kind int
+		k    uint64
+	}
+	var scales []sk
+	if x.scheme == "bgv" {
+		t := x.t
+		scales = []sk{{1, 1}}
+		for _, k := range []uint64{1, 3, 2 + c.rng.Below(t-3), t - 1} {
+			scales = append(scales, sk{0, k}, sk{2, k})
+		}
+		// without a modulus nothing reduces k: above t as well (t+1 = 1, 2t-1 = t-1, a random one)
+		scales = append(scales, sk{2, t + 1}, sk{2, 2*t - 1}, sk{2, t + 2 + c.rng.Below(1<<20)})
+	} else {
+		scales = []sk{{0, 1 << 40}, {1, 1 << 40}, {0, 1 << 36}, {2, 1 << 40}}
+	}
+	modes := []string{"single", "new", "many", "seq"}
+	for si, s := range scales {
+		for mi, mode := range modes {
+			for _, ratio := range []int{-1, 1} {
+				if !c.Thorough() && (si+mi+ratio)%2 == 0 && mode != "seq" {
+					continue
+				}
+				logCols := x.logMaxC
+				cs := &c12Case{ctLevel: L, ctScale: x.ctScale(c), logCols: logCols, v: x.randVec(c, logCols), mode: mode, cont: true, outLvl: L}
+				if x.scheme == "bgv" && c.rng.Intn(3) == 0 {
+					cs.ctScale = 1
+				}
+				nlt := 1
+				if mode == "many" || mode == "seq" {
+					nlt = 2
+				}
+				for i := 0; i < nlt; i++ {
+					lt := x.randLT(c, logCols, 2+c.rng.Intn(3), ratio, L)
+					lt.scale, lt.skind = s.k, s.kind
+					if i == 1 && c.rng.Intn(2) == 0 {
+						o := scales[c.rng.Intn(len(scales))]
+						lt.scale, lt.skind = o.k, o.kind
+					}
+					cs.lts = append(cs.lts, lt)
+				}
+				if mode == "single" {
+					cs.inplace = c.rng.Intn(2) == 0
+				}
+				c.Count(fmt.Sprintf("scales:%s:skind%d", x.scheme, s.kind))
+				x.runCase(c, cs)
+			}
+		}
+	}
 }
 
 // ---------- generators ----------
@@ -680,6 +943,7 @@ func genC12(c *Ctx) {
 		for _, logN := range logNs {
 			x := newC12Ctx(scheme, logN)
 			c12Evals(c, x)
+			c12Scales(c, x)
 		}
 	}
 	c12LevelP(c)
